@@ -36,3 +36,26 @@ fn replay_c01_empty_string() {
         },
     }
 }
+
+/// C08: dropping a table that still holds rows must release the rows' strings:
+/// no text of the dropped table may remain in the saved string data.
+#[test]
+fn replay_c08_drop_table_strings() {
+    use crate::internal::streamname;
+    let mut pkg = Package::create(PackageType::Installer, Cursor::new(Vec::new())).unwrap();
+    pkg.create_table("Doomed", vec![Column::build("K").primary_key().int32(), Column::build("S").nullable().string(0)]).unwrap();
+    pkg.insert_rows(Insert::into("Doomed").row(vec![Value::Int(1), Value::from("SecretTextOfDroppedTable")])).unwrap();
+    pkg.flush().unwrap();
+    pkg.drop_table("Doomed").unwrap();
+    let cursor = pkg.into_inner().unwrap();
+    let mut comp = cfb::CompoundFile::open(cursor).unwrap();
+    let mut data = Vec::new();
+    {
+        use std::io::Read;
+        let mut s = comp.open_stream(streamname::encode("_StringData", true)).unwrap();
+        s.read_to_end(&mut data).unwrap();
+    }
+    let hay = String::from_utf8_lossy(&data).to_string();
+    println!("OUT leftover={}", if hay.contains("SecretTextOfDroppedTable") { 1 } else { 0 });
+    println!("OUT also_table_name_left={}", if hay.contains("Doomed") { 1 } else { 0 });
+}
